@@ -320,7 +320,7 @@ def run_property(pid: str, tier: str, seed: int) -> int:
         merged["failures"].extend(r["failures"])
 
     # ---- confirm and report failures (deduplicated by bucket) -----------------------
-    found_dir = os.path.join(VERIF_DIR, "found", pid)
+    found_dir = os.path.join(os.environ.get("EQLV_FOUND_DIR") or os.path.join(VERIF_DIR, "found"), pid)
     seen_buckets = set()
     confirmed, unconfirmed = [], []
     MAX_REPORTS = 8
